@@ -155,6 +155,11 @@ def check(run, P):
         raise AnalysisError(f"only {len(funcs)} statement-constructing methods found")
     for f in funcs:
         _per_ctor(run, P, f)
+    run.rule("C07.polarity", "conditional-expression expansion: the condition is "
+             "evaluated under the base guard, the then operand under base-and-flag, "
+             "the else operand under base-and-not-flag; each branch assignment "
+             "carries the guard of its branch", minimum=5)
+    polarity(run, P, "C07.polarity")
     _wrap(run, P)
     _consumers(run, P)
     _arity(run, P)
@@ -451,6 +456,65 @@ def _outside_calls_tainted(e, tainted):
             return True
         return any(visit(c) for c in ast.iter_child_nodes(n))
     return visit(e)
+
+
+def polarity(run, P, rule):
+    f = P.func(f"{MOD}.ExprIfThenElseExpander.map_if")
+    e = f.params[1]
+    base = "base_condition"
+    # classify condition variables
+    kinds = {base: "base"}
+    flag = None
+    for s_ in func_body_stmts(f.node):
+        if isinstance(s_, ast.Assign) and isinstance(s_.value, ast.Call) \
+                and dotted(s_.value.func) in ("var", "Variable") and s_.value.args \
+                and isinstance(s_.value.args[0], ast.Call) \
+                and dotted(s_.value.args[0].func) == "self.var_name_gen" \
+                and isinstance(s_.targets[0], ast.Name):
+            a0 = s_.value.args[0].args[0] if s_.value.args[0].args else None
+            if isinstance(a0, ast.Constant) and str(a0.value).startswith("<cond>"):
+                flag = s_.targets[0].id
+    if flag is None:
+        raise AnalysisError("map_if: flag variable not found")
+    for s_ in func_body_stmts(f.node):
+        if isinstance(s_, ast.Assign) and isinstance(s_.value, ast.Call) \
+                and dotted(s_.value.func) == "flat_LogicalAnd" and len(s_.value.args) == 2 \
+                and isinstance(s_.targets[0], ast.Name) and dotted(s_.value.args[0]) == base:
+            a1 = s_.value.args[1]
+            if dotted(a1) == flag:
+                kinds[s_.targets[0].id] = "then"
+            elif isinstance(a1, ast.Call) and dotted(a1.func) == "LogicalNot" \
+                    and a1.args and dotted(a1.args[0]) == flag:
+                kinds[s_.targets[0].id] = "else_"
+    want = {"condition": "base", "then": "then", "else_": "else_"}
+    recs = {}
+    for s_ in func_body_stmts(f.node):
+        if isinstance(s_, ast.Assign) and isinstance(s_.value, ast.Call) \
+                and dotted(s_.value.func) == "self.rec" and len(s_.value.args) >= 2 \
+                and isinstance(s_.value.args[0], ast.Attribute) \
+                and dotted(s_.value.args[0].value) == e and isinstance(s_.targets[0], ast.Name):
+            part = s_.value.args[0].attr
+            got = kinds.get(dotted(s_.value.args[1]))
+            recs[s_.targets[0].id] = part
+            run.ob(rule, f, s_.value, got == want.get(part),
+                   construct=f"self.rec(expr.{part}, {norm(s_.value.args[1])}, ...): guard kind "
+                             f"{got!r}, expected {want.get(part)!r}",
+                   why=f"statements created for the {part} operand must run exactly when "
+                       f"that operand is evaluated; under the wrong guard a nested "
+                       f"conditional is never assigned and an unset variable is copied")
+    if set(recs.values()) != {"condition", "then", "else_"}:
+        raise AnalysisError("map_if: recursion into condition/then/else_ not found")
+    for c in _ctor_calls(f):
+        ex = kwarg(c, "expression", 2)
+        cond = kwarg(c, "condition")
+        part = recs.get(dotted(ex))
+        if part is None:
+            continue
+        got = kinds.get(dotted(cond))
+        run.ob(rule, f, c, got == want[part],
+               construct=f"Assign(expression=<{part} result>, condition={norm(cond)}): guard "
+                         f"kind {got!r}, expected {want[part]!r}",
+               why="each branch assignment must carry the guard of its own branch")
 
 
 def _wrap(run, P):
